@@ -289,7 +289,7 @@ def read_pairs(path, enc):
 def run_c18(t, tier, res):
     from lib_guesser.omen.markov_cracker import MarkovCracker
     from lib_guesser.omen.optimizer import Optimizer
-    flavour = {"nonascii": t.chance(1, 5)}
+    flavour = {"nonascii": t.chance(1, 5), "long": t.chance(1, 4)}
     pws, opts = trainer.gen_list(t, flavour)
     style = t.draw(4)
     if style == 0:
@@ -316,9 +316,12 @@ def run_c18(t, tier, res):
         res.violate("C18", "load_rules_failed", {})
         return
     keyspace = {int(a): int(b) for a, b in read_pairs(os.path.join(odir, "omen_keyspace.txt"), enc)}
-    per_level = {int(a): int(b) for a, b in read_pairs(os.path.join(odir, "omen_pws_per_level.txt"), enc)}
+    # "the fraction of training passwords at that level": levels recomputed from the saved model for the passwords the
+    # trainer's last pass read, not taken from the trainer's own count file
+    reads = tr.cap.reads[-1] if tr.cap.reads else pws
+    per_level = collections.Counter(ref.level(p) for p in reads)
     probs = {int(a): float(b) for a, b in read_pairs(os.path.join(odir, "pcfg_omen_prob.txt"), enc)}
-    N = sum(per_level.values())
+    N = len(reads)
     nlisted = 0
     big = 0
     budget_left = 15000
@@ -367,7 +370,7 @@ def run_c11(t, tier, res):
     from lib_guesser.omen.optimizer import Optimizer
     from lib_scorer.omen_scorer import OmenScorer
     from lib_trainer.omen.evaluate_password import find_omen_level
-    flavour = {"nonascii": t.chance(1, 4), "nonbmp": t.chance(1, 8)}
+    flavour = {"nonascii": t.chance(1, 4), "nonbmp": t.chance(1, 8), "long": t.chance(1, 4)}
     pws, opts = trainer.gen_list(t, flavour)
     scratch.fresh_disk()
     tr = trainer.train(pws, opts)
